@@ -6,9 +6,10 @@ import Driver.OpsMesh
 import Driver.OpsSolve
 import Driver.OpsHistory
 import Driver.OpsTransfer
+import Driver.OpsSpectral
 open LapyVerif.Driver
 
-def allOps : List (String × P String) := femOps ++ diffGeoOps ++ topoOps ++ meshOps ++ solveOps ++ heatOps ++ historyOps ++ ctorOps ++ transferOps
+def allOps : List (String × P String) := femOps ++ diffGeoOps ++ topoOps ++ meshOps ++ solveOps ++ heatOps ++ historyOps ++ ctorOps ++ transferOps ++ spectralOps
 
 def handle (line : String) : String :=
   let toks := ((line.trimAscii.toString.splitOn " ").filter (· ≠ "")).toArray
